@@ -203,6 +203,112 @@ def zpos_scenario(rng):
     return sc, expected, out, dict(mode=mode, snt=snt, ncomp=ncomp, history_matters=(alone != out), wire=wire.hex(), window=hist.hex())
 
 
+_WRONG = [0x41, 0xc3, 0xff, 0xe2, 0xf0, 0x80, 0xbf, 0x9f, 0xa0, 0x8f, 0x90, 0xc0, 0xf5]
+_CUTS = [(2, 1), (3, 1), (3, 2), (4, 1), (4, 2), (4, 3)]
+_BY_WIDTH = {2: ['\u00e9', '\u0080', '\u07ff'], 3: ['\u20ac', '\u0800', '\ud7ff', '\ue000', '\uffff'], 4: ['\U0001f600', '\U00010000', '\U0010ffff']}
+
+
+def _ascii_fill(rng, n):
+    """n bytes of plain ASCII (JSON-like text with format metacharacters; now and then NUL / DEL)"""
+    if n <= 0:
+        return b''
+    unit = rng.choice([b'{"key": "value", "n": 12345} ', b'abc def %s {0} ', b'x', b'lorem ipsum, dolor\r\n', b'\x00\x7f~ '])
+    return (unit * (n // len(unit) + 1))[:n]
+
+
+def boundary_scenario(rng, cuts, L, kind, where, joined, rest, ctrl):
+    """An uncompressed text message with len(cuts) BOUNDARIES, each placed inside a multi-byte sequence (cuts[i] = (width, k): k bytes
+       of a width-byte character come before the boundary).  where='frame': the boundary is a frame boundary (the message has
+       len(cuts)+1 frames) and the read that brings the next frame's header brings exactly the first L bytes of its payload (the
+       frame may be longer: `rest` more bytes follow in a later read); `joined`: that read also carries the end of the previous frame;
+       `ctrl`: a Ping sits between the two frames.  where='read': one frame, the boundary is a boundary between two reads and the
+       second read is L bytes long.  After every boundary but the last the sequence is completed correctly and plain ASCII follows.
+       kind='valid': so also after the last one, the message is finished and must be delivered;  kind='ascii' / 'wrong': the first byte
+       after the last boundary is an ASCII byte / some other byte that cannot continue the sequence, the rest of the L-byte slice is
+       plain ASCII, and the stream STOPS with that read (the message is never finished): the error is due by then.
+       Returns (scenario, payload as declared by the frames, index of the first offending byte or None)."""
+    payload, bounds = b'', []
+    for i, (w, k) in enumerate(cuts):
+        enc = rng.choice(_BY_WIDTH[w]).encode('utf-8')
+        payload += _ascii_fill(rng, rng.choice([0, 1, 3, 40]) if i == 0 else 0) + enc[:k]
+        o = len(payload)
+        if i == len(cuts) - 1 and kind != 'valid':
+            first = b'A' if kind == 'ascii' else bytes([rng.choice([b for b in _WRONG if b >= 0x80 and not refcodec._extendable(enc[:k] + bytes([b]))])])
+            if kind == 'ascii':
+                first = _ascii_fill(rng, 1)
+            sl = first + _ascii_fill(rng, L - 1)
+        else:
+            sl = enc[k:] + _ascii_fill(rng, L - (len(enc) - k))
+        payload += sl
+        bounds.append((o, len(sl)))
+        payload += _ascii_fill(rng, rest)
+    # self-check of the generator with the reference recogniser (linear: the part before the last character is valid, the few bytes
+    # around the last boundary decide)
+    t0 = bounds[-1][0] - cuts[-1][1]
+    assert refcodec.rfc3629_valid(payload[:t0])
+    bad = refcodec.first_bad_utf8_index(payload[t0:t0 + 8])
+    assert (refcodec.rfc3629_valid(payload) if kind == 'valid' else bad == cuts[-1][1] + 1), (kind, bad, bounds)
+    sc = Scenario([], prate=0)
+    hs = sc.good_reply()
+    cutset = set()
+    if where == 'frame':
+        parts = cut(payload, [o for o, _ in bounds])
+        lastfin = 1 if kind == 'valid' else (0 if rest == 0 else rng.choice([0, 1]))
+        stream, starts = b'', []
+        for j, part in enumerate(parts):
+            if j > 0 and ctrl:
+                stream += server_frame(9, b'p%d' % j)
+            fr = server_frame(1 if j == 0 else 0, part, fin=lastfin if j == len(parts) - 1 else 0)
+            starts.append((len(stream), len(fr) - len(part)))
+            stream += fr
+        for j, (o, n) in enumerate(bounds):
+            st, hdr = starts[j + 1]
+            if not joined:
+                cutset.add(st)
+            cutset.add(st + hdr + n)
+        end = starts[-1][0] + starts[-1][1] + bounds[-1][1]
+    else:
+        stream = server_frame(1, payload + (b'' if kind == 'valid' else b' never sent'), fin=1)
+        hdr = len(stream) - len(payload) - (0 if kind == 'valid' else 11)
+        for o, n in bounds:
+            cutset.add(hdr + o); cutset.add(hdr + o + n)
+        end = hdr + bounds[-1][0] + bounds[-1][1]
+    if kind != 'valid':
+        stream = stream[:end]
+    chunks = [c for c in cut(stream, sorted(x for x in cutset if 0 < x < len(stream))) if c]
+    if rng.random() < 0.3 and len(chunks[0]) < 4096:
+        chunks[0] = hs + chunks[0]              # the handshake reply and the first bytes in one read
+    else:
+        chunks = [hs] + chunks
+    sc.env = reads(coreutil.limit_chunks(chunks))
+    if kind == 'valid':
+        sc.env.append(('wait', 1, ('eof',)))
+    return sc, payload, (None if kind == 'valid' else bounds[-1][0])
+
+
+def boundary_cases(rng, tier):
+    """cut position inside each width of sequence x length of the slice that follows x kind x where x number of boundaries"""
+    out = []
+    lens = [1, 63, 64, 511, 512, 513, 1024, 4096, 65536] if tier == 'quick' else [1, 2, 63, 64, 65, 255, 256, 511, 512, 513, 1000, 1023, 1024, 1025, 2048, 4095, 4096, 4097, 16384, 65535, 65536]
+    for L in lens:
+        for ci, c in enumerate(_CUTS):
+            for kind in ('ascii', 'wrong', 'valid'):
+                for where, joined in (('frame', False), ('frame', True), ('read', False)):
+                    for m in ((1, 2) if tier == 'quick' else (1, 2, 3, 5)):
+                        if L > 1024 and m > 1 and tier == 'quick':
+                            continue
+                        if L > 4096 and (where, joined) != ('frame', False) and (tier == 'quick' or m > 1):
+                            continue
+                        if L > 4097 and m > 2:
+                            continue
+                        cuts = [rng.choice(_CUTS) for _ in range(m - 1)] + [c]
+                        rest = rng.choice([0, 0, 7, 600])
+                        ctrl = where == 'frame' and rng.random() < 0.25
+                        sc, p, bad = boundary_scenario(rng, cuts, L, kind, where, joined, rest, ctrl)
+                        out.append((sc, p, kind, ctrl, 'boundary_%s%s_%s' % (where, '_joined' if joined else '', kind), L))
+    return out
+
+
 def gen_payload(rng):
     kind = rng.random()
     cps = []
@@ -243,6 +349,7 @@ def explore(res, tier, seed, model_ok=True):
     rng = random.Random(seed)
     res.rule = ('exhaustive: 9x256 validator steps and all byte strings of length <= %d on the real Utf8Validator vs model vs RFC 3629 oracle; '
                 'long chunks (60 bytes .. 64 KiB) ending on / inside every width of character, continued correctly or not, with an invalid byte near start / middle / end: validator vs RFC 3629 oracle; generated: text payloads (valid, and invalid by 7 corruption kinds) x fragmentation x read cuts through the real receive path; '
+                'boundary family (real code vs model vs oracle): a frame / read ending 1..3 bytes into a 2/3/4-byte sequence x length of the next frame\'s first read slice (1 .. 65536; plain ASCII, or starting with a byte that cannot continue) x 1..5 such boundaries x separate / joined reads x Ping between: error due by the read that delivers the offending byte (stream stops there), valid texts of the same shape delivered exactly; '
                 'non-trivial = multi-byte or invalid payload, distinct by (payload, fragmentation, cuts)') % (3 if tier == 'thorough' else 2)
     # 1. exhaustive steps
     steps = real_validator_steps(None)
@@ -404,9 +511,19 @@ def explore(res, tier, seed, model_ok=True):
                     hs = sc.good_reply()
                     sc.env = reads([hs + stream[:cutpos], stream[cutpos:]])
                     scs.append(sc); meta.append((p_, 'failfast', False, False))
+    # a frame (or read) that ends INSIDE a multi-byte sequence, followed by a next frame whose first read slice is short .. very long
+    # (plain ASCII, or starting with the wrong kind of byte): fail-fast by the read that delivers the offending byte whatever the
+    # slice sizes, and valid texts of the same shape delivered.  Own rng stream (derived from the seed): the cases above stay as they were.
+    tags = {}
+    rngb = random.Random(seed * 1000003 + 505)
+    for sc_, p_, kind_, ctrl_, tag_, L_ in boundary_cases(rngb, tier):
+        tags[len(scs)] = (tag_, L_)
+        scs.append(sc_); meta.append((p_, 'verdict' if kind_ == 'valid' else 'failfast', False, ctrl_))
     # witnesses of the two known fail-fast defects of the pinned commit run first (corpus)
     pairs = coreutil.run_pairs(scs, model_ok)
-    for (js, line, real, model), (p, mode, neg, cb) in zip(pairs, meta):
+    for idx_, ((js, line, real, model), (p, mode, neg, cb)) in enumerate(zip(pairs, meta)):
+        if idx_ in tags:
+            res.count(tags[idx_][0]); res.count('boundary_next_slice_%s' % ('ge_512' if tags[idx_][1] >= 512 else 'lt_512'))
         if isinstance(real, dict):
             res.crashes.append(real)
             continue
